@@ -2,7 +2,10 @@ use crate::lexer::{LexerError, TokenStream};
 use crate::unlex;
 use rssl_text::tokens::*;
 use rssl_text::*;
+#[cfg(not(trark_rssl_verif))]
 use std::collections::{HashMap, HashSet};
+#[cfg(trark_rssl_verif)]
+use rssl_text::verif_collections::{HashMap, HashSet};
 
 /// An error which occurred when attempting to preprocess a file
 #[derive(PartialEq, Debug, Clone)]
